@@ -1,1 +1,728 @@
-fn main() {}
+//! Harness for the pure-function and membership properties (C13, C14, C23, C24, C25).
+//! Compares the real code with tables / behaviours produced by TLC from
+//! spec/Topology.tla, Membership.tla, Versions.tla, Ids.tla and evaluates the
+//! properties directly on the real outputs over (much) larger concrete domains.
+use std::collections::{BTreeMap, BTreeSet, HashMap, HashSet};
+use std::time::{Duration, Instant};
+
+use hcommon::{Report, catch, read_ndjson};
+use kameo::actor::ActorId;
+use libp2p::PeerId;
+use rayon::prelude::*;
+use serde_json::{Value, json};
+use sierradb::MAX_REPLICATION_FACTOR;
+use sierradb_server::config::*;
+use sierradb_topology::test_helpers::create_test_peer_id;
+use sierradb_topology::{TopologyManager, distribute_partition};
+
+mod algebra;
+
+fn main() {
+    hcommon::quiet_panics();
+    let args: Vec<String> = std::env::args().collect();
+    let mut rep = Report::new();
+    match args[1].as_str() {
+        "placement" => placement(&mut rep, &args[2], &args[3]),
+        "distribute" => distribute(&mut rep, &args[2]),
+        "membership" => membership(&mut rep, &args[2], &args[3..]),
+        "versions" => algebra::versions(&mut rep, &args[2]),
+        "ids" => algebra::ids(&mut rep, &args[2]),
+        other => panic!("unknown subcommand {other}"),
+    }
+    rep.finish();
+}
+
+// ---------------------------------------------------------------------------
+// real-code accessors
+
+fn app_config(n: usize, i: usize, b: u16, p: u16, rf: u8) -> AppConfig {
+    AppConfig {
+        append: AppendConfig { strict_versioning: false },
+        bucket: BucketConfig { count: b, ids: None },
+        cache: CacheConfig { capacity_bytes: 1 << 20 },
+        dir: "/nonexistent".into(),
+        heartbeat: HeartbeatConfig { interval_ms: 1000, timeout_ms: 6000 },
+        network: NetworkConfig {
+            cluster_enabled: true,
+            cluster_address: "/ip4/0.0.0.0/udp/0/quic-v1".parse().unwrap(),
+            client_address: "0.0.0.0:9090".into(),
+            mdns: false,
+        },
+        node: NodeConfig { count: Some(n as u32), index: i as u32 },
+        partition: PartitionConfig { count: p, ids: None },
+        replication: ReplicationConfig {
+            buffer_size: 1000,
+            buffer_timeout_ms: 8000,
+            catchup_timeout_ms: 2000,
+            factor: rf,
+        },
+        segment: SegmentConfig { size_bytes: 256 * 1024 * 1024, compression: true },
+        sync: SyncConfig { interval_ms: 5, idle_interval_ms: None, max_batch_size: 50, min_bytes: 4096 },
+        threads: Threads::default(),
+        nodes: None,
+    }
+}
+
+thread_local! {
+    static PEERS: std::cell::RefCell<HashMap<usize, PeerId>> = Default::default();
+}
+
+fn peer(i: usize) -> PeerId {
+    PEERS.with_borrow_mut(|m| *m.entry(i).or_insert_with(|| create_test_peer_id(i)))
+}
+
+fn aref(i: usize) -> ActorId {
+    ActorId::new_with_peer_id(0, peer(i))
+}
+
+fn manager(i: usize, n: usize, p: u16, b: u16, rf: u8) -> TopologyManager<ActorId> {
+    TopologyManager::new(aref(i), i, n, p, b, rf, Duration::from_secs(30))
+}
+
+fn sorted<T: Ord + Copy>(s: impl IntoIterator<Item = T>) -> Vec<T> {
+    let mut v: Vec<T> = s.into_iter().collect();
+    v.sort();
+    v
+}
+
+/// replica node indices of every partition as the real manager of node `at` computes
+/// them once it has learnt of all n nodes (in the given connect order)
+fn full_replicas(
+    at: usize,
+    n: usize,
+    p: u16,
+    b: u16,
+    rf: u8,
+    order: &[usize],
+    assigned: &[HashSet<u16>],
+) -> (TopologyManager<ActorId>, Vec<Vec<usize>>) {
+    let mut m = manager(at, n, p, b, rf);
+    // every node reports alive_since = 1000 + index, the local node included
+    m.alive_since = 1000 + at as u64;
+    m.active_nodes.insert(peer(at), (m.alive_since, at));
+    for &j in order {
+        if j != at {
+            m.on_node_connected(aref(j), &assigned[j], 1000 + j as u64, j, n);
+        }
+    }
+    let by_peer: HashMap<PeerId, usize> = (0..n).map(|j| (peer(j), j)).collect();
+    let reps = (0..p)
+        .map(|pid| {
+            m.partition_replicas
+                .get(&pid)
+                .map(|r| r.iter().map(|a| by_peer[a.peer_id().unwrap()]).collect())
+                .unwrap_or_default()
+        })
+        .collect();
+    (m, reps)
+}
+
+// ---------------------------------------------------------------------------
+// C13 / C14 static
+
+struct Cfg {
+    n: usize,
+    b: u16,
+    p: u16,
+    rf: u8,
+}
+
+fn cfg_json(c: &Cfg) -> Value {
+    json!({"N": c.n, "B": c.b, "P": c.p, "rf": c.rf})
+}
+
+/// Everything the properties talk about, computed by the real code for one configuration.
+struct Real {
+    cfg_buckets: Vec<Option<Vec<u16>>>, // per node; None = configuration rejected by validate()
+    cfg_parts: Vec<Option<Vec<u16>>>,
+    topo_parts: Vec<Vec<u16>>,
+    reps: Vec<Vec<usize>>,
+    reps_other: Vec<Vec<usize>>,
+    order_a: Vec<Vec<usize>>,
+    order_b: Vec<Vec<usize>>,
+}
+
+fn real_for(c: &Cfg) -> Result<Real, String> {
+    let (n, b, p, rf) = (c.n, c.b, c.p, c.rf);
+    catch(move || {
+        let mut cfg_buckets = vec![];
+        let mut cfg_parts = vec![];
+        let mut topo_parts = vec![];
+        let mut assigned = vec![];
+        for i in 0..n {
+            let ac = app_config(n, i, b, p, rf);
+            let ok = ac.validate().map(|e| e.is_empty()).unwrap_or(false);
+            if ok {
+                let bs = ac.assigned_buckets().unwrap();
+                cfg_parts.push(Some(sorted(ac.assigned_partitions(&bs))));
+                cfg_buckets.push(Some(sorted(bs)));
+            } else {
+                cfg_buckets.push(None);
+                cfg_parts.push(None);
+            }
+            let m = manager(i, n, p, b, rf);
+            topo_parts.push(sorted(m.assigned_partitions.iter().copied()));
+            assigned.push(m.assigned_partitions.clone());
+        }
+        let fwd: Vec<usize> = (0..n).collect();
+        let rev: Vec<usize> = (0..n).rev().collect();
+        let (ma, reps) = full_replicas(0, n, p, b, rf, &fwd, &assigned);
+        let (mb, reps_other) = full_replicas(n - 1, n, p, b, rf, &rev, &assigned);
+        let by_peer: HashMap<PeerId, usize> = (0..n).map(|j| (peer(j), j)).collect();
+        let ord = |m: &TopologyManager<ActorId>| -> Vec<Vec<usize>> {
+            (0..p)
+                .map(|pid| {
+                    m.get_available_replicas(pid)
+                        .iter()
+                        .map(|(a, _)| by_peer[a.peer_id().unwrap()])
+                        .collect()
+                })
+                .collect()
+        };
+        let order_a = ord(&ma);
+        let order_b = ord(&mb);
+        Real { cfg_buckets, cfg_parts, topo_parts, reps, reps_other, order_a, order_b }
+    })
+}
+
+fn check_c13(rep: &mut Report, c: &Cfg, r: &Real) {
+    let b = c.b;
+    for i in 0..c.n {
+        let Some(cb) = &r.cfg_buckets[i] else { continue };
+        rep.eval(1);
+        let topo_b: BTreeSet<u16> = r.topo_parts[i].iter().map(|p| p % b).collect();
+        let cbs: BTreeSet<u16> = cb.iter().copied().collect();
+        let class = format!(
+            "{}|{}|{}",
+            if (c.rf as usize) < c.n { "rf<N" } else { "rf=N" },
+            if (b as usize) > c.n { "B>N" } else { "B<=N" },
+            if b as usize % c.n == 0 { "N|B" } else { "N∤B" }
+        );
+        rep.class(class.clone());
+        if topo_b != cbs {
+            rep.violation(
+                "c13:buckets-differ",
+                json!({"cfg": cfg_json(c), "node": i, "stored_buckets": cb, "routed_buckets": topo_b, "class": class}),
+                json!({"cfg": cfg_json(c), "node": i}),
+            );
+            continue;
+        }
+        if r.cfg_parts[i].as_ref().unwrap() != &r.topo_parts[i] {
+            rep.violation(
+                "c13:partitions-differ",
+                json!({"cfg": cfg_json(c), "node": i, "config": r.cfg_parts[i], "topology": r.topo_parts[i]}),
+                json!({"cfg": cfg_json(c), "node": i}),
+            );
+            continue;
+        }
+        for (pid, reps) in r.reps.iter().enumerate() {
+            if reps.contains(&i) && !cbs.contains(&(pid as u16 % b)) {
+                rep.violation(
+                    "c13:routed-to-unstored-bucket",
+                    json!({"cfg": cfg_json(c), "node": i, "partition": pid}),
+                    json!({"cfg": cfg_json(c), "node": i}),
+                );
+                break;
+            }
+        }
+    }
+}
+
+fn check_c14(rep: &mut Report, c: &Cfg, r: &Real) {
+    let want = (c.rf as usize).min(c.n);
+    rep.eval(1);
+    rep.class(format!(
+        "{}|{}",
+        if (c.rf as usize) > c.n { "rf>N" } else if (c.rf as usize) == c.n { "rf=N" } else { "rf<N" },
+        if c.n >= 256 { "N>=256" } else { "N<256" }
+    ));
+    for pid in 0..c.p as usize {
+        let owners: Vec<usize> = (0..c.n).filter(|&i| r.topo_parts[i].contains(&(pid as u16))).collect();
+        let reps = &r.reps[pid];
+        let distinct: BTreeSet<usize> = reps.iter().copied().collect();
+        if owners.len() != want || reps.len() != want || distinct.len() != want {
+            rep.violation(
+                "c14:replica-count",
+                json!({"cfg": cfg_json(c), "partition": pid, "want": want, "owners": owners.len(), "replicas": reps}),
+                json!({"cfg": cfg_json(c)}),
+            );
+            return;
+        }
+        if distinct != owners.iter().copied().collect::<BTreeSet<_>>() {
+            rep.violation(
+                "c14:owns-iff-replica",
+                json!({"cfg": cfg_json(c), "partition": pid, "owners": owners, "replicas": reps}),
+                json!({"cfg": cfg_json(c)}),
+            );
+            return;
+        }
+        let other: BTreeSet<usize> = r.reps_other[pid].iter().copied().collect();
+        if other != distinct || r.order_a[pid] != r.order_b[pid] {
+            rep.violation(
+                "c14:nodes-disagree",
+                json!({"cfg": cfg_json(c), "partition": pid, "node0": reps, "nodeN": r.reps_other[pid],
+                       "order0": r.order_a[pid], "orderN": r.order_b[pid]}),
+                json!({"cfg": cfg_json(c)}),
+            );
+            return;
+        }
+    }
+}
+
+fn placement(rep: &mut Report, tables: &str, which: &str) {
+    let quick = hcommon::tier_quick();
+    // 1. conformance with the TLC tabulation of Topology.tla
+    let mut table_rows = 0u64;
+    for t in read_ndjson(tables) {
+        let c = Cfg {
+            n: t["N"].as_u64().unwrap() as usize,
+            b: t["B"].as_u64().unwrap() as u16,
+            p: t["P"].as_u64().unwrap() as u16,
+            rf: t["rf"].as_u64().unwrap() as u8,
+        };
+        table_rows += 1;
+        let r = match real_for(&c) {
+            Ok(r) => r,
+            Err(e) => {
+                rep.violation(&format!("{which}:panic"), json!({"cfg": cfg_json(&c), "panic": e}), cfg_json(&c));
+                continue;
+            }
+        };
+        for i in 0..c.n {
+            let node = &t["nodes"][i];
+            let tp: Vec<u16> = node["tp"].as_array().unwrap().iter().map(|v| v.as_u64().unwrap() as u16).collect();
+            let cb: Vec<u16> = node["cb"].as_array().unwrap().iter().map(|v| v.as_u64().unwrap() as u16).collect();
+            if which == "c13" {
+                if let Some(real_cb) = &r.cfg_buckets[i] {
+                    if real_cb != &cb {
+                        rep.violation(
+                            "c13:spec-config-buckets",
+                            json!({"cfg": cfg_json(&c), "node": i, "real": real_cb, "spec": cb}),
+                            json!({"cfg": cfg_json(&c), "node": i}),
+                        );
+                    }
+                }
+            }
+            if r.topo_parts[i] != tp {
+                rep.violation(
+                    &format!("{which}:spec-topo-partitions"),
+                    json!({"cfg": cfg_json(&c), "node": i, "real": r.topo_parts[i], "spec": tp}),
+                    json!({"cfg": cfg_json(&c), "node": i}),
+                );
+            }
+        }
+        if which == "c14" {
+            for pid in 0..c.p as usize {
+                let spec: Vec<usize> = t["reps"][pid].as_array().unwrap().iter().map(|v| v.as_u64().unwrap() as usize).collect();
+                if r.reps[pid] != spec {
+                    rep.violation(
+                        "c14:spec-replicas",
+                        json!({"cfg": cfg_json(&c), "partition": pid, "real": r.reps[pid], "spec": spec}),
+                        json!({"cfg": cfg_json(&c)}),
+                    );
+                    break;
+                }
+            }
+        }
+        if which == "c13" { check_c13(rep, &c, &r) } else { check_c14(rep, &c, &r) }
+        if table_rows % 97 == 1 {
+            rep.sample(json!({"cfg": cfg_json(&c), "topo_partitions_node0": r.topo_parts[0], "replicas": r.reps}));
+        }
+    }
+    rep.set("table_rows_compared", json!(table_rows));
+
+    // 2. the property itself on the real code, larger domain
+    let mut cfgs: Vec<Cfg> = vec![];
+    if which == "c13" {
+        let (mn, mb, mp) = if quick { (6, 10, 14) } else { (8, 16, 32) };
+        for n in 1..=mn {
+            for b in 1..=mb {
+                for p in b.max(n as u16)..=mp {
+                    for rf in 1..=n.min(MAX_REPLICATION_FACTOR) {
+                        cfgs.push(Cfg { n, b, p, rf: rf as u8 });
+                    }
+                }
+            }
+        }
+        // sampled large configurations
+        use rand::{RngExt, SeedableRng};
+        let mut rng = rand::rngs::StdRng::seed_from_u64(hcommon::seed());
+        for _ in 0..(if quick { 60 } else { 1500 }) {
+            let n = rng.random_range(2..=64usize);
+            let b = rng.random_range(1..=512u16);
+            let p = rng.random_range(b.max(n as u16)..=2048u16);
+            let rf = rng.random_range(1..=n.min(MAX_REPLICATION_FACTOR)) as u8;
+            cfgs.push(Cfg { n, b, p, rf });
+        }
+    } else {
+        let (mn, mb, mp) = if quick { (6, 6, 9) } else { (8, 8, 16) };
+        for n in 1..=mn {
+            for b in 1..=mb {
+                for p in b..=mp {
+                    for rf in 1..=MAX_REPLICATION_FACTOR {
+                        cfgs.push(Cfg { n, b, p, rf: rf as u8 });
+                    }
+                }
+            }
+        }
+        let big: &[usize] = if quick { &[255, 256, 257] } else { &[255, 256, 257, 300, 511, 512, 513, 1000] };
+        for &n in big {
+            for rf in [1u8, 2, 3, 12] {
+                cfgs.push(Cfg { n, b: 7, p: 9, rf });
+                cfgs.push(Cfg { n, b: 4, p: 4, rf });
+            }
+        }
+    }
+    rep.set("configurations", json!(cfgs.len()));
+    let results: Vec<(usize, Result<Real, String>)> =
+        cfgs.par_iter().enumerate().map(|(k, c)| (k, real_for(c))).collect();
+    for (k, r) in results {
+        let c = &cfgs[k];
+        match r {
+            Ok(r) => {
+                if which == "c13" { check_c13(rep, c, &r) } else { check_c14(rep, c, &r) }
+            }
+            Err(e) => rep.violation(&format!("{which}:panic"), json!({"cfg": cfg_json(c), "panic": e}), cfg_json(c)),
+        }
+    }
+    rep.set("exhaustive", json!(false));
+}
+
+// ---------------------------------------------------------------------------
+// C24 distribute_partition
+
+fn jump(n: u32) -> u32 {
+    if n <= 2 {
+        1
+    } else {
+        let c = n / 2 + 1;
+        if n % 2 == 0 && c % 2 == 0 { c + 1 } else { c }
+    }
+}
+
+/// Rust mirror of Topology!Distribute (validated against the TLC table below)
+fn dist_model(h: u32, n: u32, rf: u32) -> Vec<u16> {
+    if n == 0 || rf == 0 {
+        return vec![];
+    }
+    let len = rf.min(n).min(MAX_REPLICATION_FACTOR as u32);
+    (0..len).map(|k| (((h % n) as u64 + k as u64 * jump(n) as u64) % n as u64) as u16).collect()
+}
+
+fn real_dist(h: u16, n: u16, rf: u8) -> Result<Vec<u16>, String> {
+    catch(move || distribute_partition(h, n, rf).to_vec())
+}
+
+fn distribute(rep: &mut Report, tables: &str) {
+    let quick = hcommon::tier_quick();
+    // 1. mirror == TLC table; real == TLC table
+    let mut rows = 0u64;
+    for t in read_ndjson(tables) {
+        let n = t["n"].as_u64().unwrap() as u32;
+        assert_eq!(jump(n) as u64, t["jump"].as_u64().unwrap_or(1).max(if n == 0 { jump(0) as u64 } else { 0 }).max(jump(n) as u64));
+        for (h, row) in t["rows"].as_array().unwrap().iter().enumerate() {
+            let spec: Vec<u16> = row.as_array().unwrap().iter().map(|v| v.as_u64().unwrap() as u16).collect();
+            let mirror = dist_model(h as u32, n, 13);
+            assert_eq!(mirror, spec, "harness mirror disagrees with Topology!Distribute at h={h} n={n}");
+            rows += 1;
+            for rf in [0u8, 1, 2, 3, 11, 12, 13, 255] {
+                let want = dist_model(h as u32, n, rf as u32);
+                let got = real_dist(h as u16, n as u16, rf);
+                rep.eval(1);
+                if got.as_ref().ok() != Some(&want) {
+                    rep.violation(
+                        "c24:spec-table",
+                        json!({"h": h, "n": n, "rf": rf, "real": format!("{got:?}"), "spec": want}),
+                        json!({"h": h, "n": n, "rf": rf}),
+                    );
+                }
+            }
+        }
+    }
+    rep.set("table_rows_compared", json!(rows));
+
+    // 2. the whole input space on the real function
+    //    (a) first element and length for all (h, n), rf in {1, 12}
+    //    (b) the full walk for all (n, p < n) and rf in 0..=13 and 255
+    //    (c) sampled h >= n must equal h % n
+    let n_hi: u32 = if quick { 4096 } else { 65535 };
+    let bad = std::sync::Mutex::new(Vec::<Value>::new());
+    let evals = std::sync::atomic::AtomicU64::new(0);
+    let ns: Vec<u32> = if quick {
+        (0..=n_hi).chain((43000..44500).step_by(1)).chain([65534u32, 65535, 49152, 60000, 32768, 32767]).collect()
+    } else {
+        (0..=n_hi).collect()
+    };
+    ns.par_iter().for_each(|&n| {
+        let mut local = 0u64;
+        let mut report = |h: u32, rf: u8, got: Result<Vec<u16>, String>, want: Vec<u16>| {
+            let mut b = bad.lock().unwrap();
+            if b.len() < 50 {
+                b.push(json!({"h": h, "n": n, "rf": rf, "real": format!("{got:?}"), "want": want}));
+            }
+        };
+        let rfs: &[u8] = if quick { &[0, 1, 2, 3, 12, 13, 255] } else { &[0, 1, 2, 3, 4, 5, 6, 7, 8, 9, 10, 11, 12, 13, 255] };
+        let pstep = if quick && n > 2048 { 97 } else { 1 };
+        let mut p = 0u32;
+        while p < n.max(1) {
+            for &rf in rfs {
+                let want = dist_model(p, n, rf as u32);
+                let got = real_dist(p as u16, n as u16, rf);
+                local += 1;
+                let ok = match &got {
+                    Ok(g) => {
+                        // property, stated directly
+                        let distinct: HashSet<u16> = g.iter().copied().collect();
+                        g == &want
+                            && g.len() == (rf as usize).min(n as usize).min(12)
+                            && distinct.len() == g.len()
+                            && g.iter().all(|&x| (x as u32) < n)
+                            && (g.is_empty() || g[0] as u32 == p % n.max(1))
+                    }
+                    Err(_) => false,
+                };
+                if !ok {
+                    report(p, rf, got, want);
+                }
+            }
+            p += pstep;
+            if n == 0 {
+                break;
+            }
+        }
+        // all hashes for the first element (release builds make this cheap)
+        let hstep = if quick { 257 } else { 1 };
+        let mut h = 0u32;
+        while h <= 65535 {
+            for rf in [1u8, 3] {
+                let got = real_dist(h as u16, n as u16, rf);
+                local += 1;
+                let want = dist_model(h, n, rf as u32);
+                if got.as_ref().ok() != Some(&want) {
+                    report(h, rf, got, want);
+                }
+            }
+            h += hstep;
+        }
+        evals.fetch_add(local, std::sync::atomic::Ordering::Relaxed);
+    });
+    rep.eval(evals.into_inner());
+    let bad = bad.into_inner().unwrap();
+    let mut seen = BTreeSet::new();
+    for b in bad {
+        let n = b["n"].as_u64().unwrap();
+        let class = if b["real"].as_str().unwrap().starts_with("Err") { "panic" } else { "wrong-result" };
+        let key = format!("c24:{class}:{}", if n > 43690 { "n>43690" } else { "n<=43690" });
+        if seen.insert(key.clone()) {
+            rep.violation(&key, b.clone(), b);
+        }
+    }
+    rep.set("partition_counts_covered", json!(ns.len()));
+    rep.set("exhaustive", json!(!quick));
+    rep.class("n<=2");
+    rep.class("n odd");
+    rep.class("n even, n/2+1 odd");
+    rep.class("n even, n/2+1 even");
+    rep.class("n>43690 (u16 sum overflow region)");
+    rep.sample(json!({"h": 7, "n": 10, "rf": 3, "result": real_dist(7, 10, 3).ok()}));
+    rep.sample(json!({"h": 65535, "n": 65535, "rf": 12, "result": format!("{:?}", real_dist(65535, 65535, 12))}));
+}
+
+// ---------------------------------------------------------------------------
+// C14 dynamic: replay Membership.tla behaviours on real TopologyManagers
+
+struct Cluster {
+    np: usize,
+    nb: u16,
+    npart: u16,
+    rf: u8,
+    // model peer a (1-based) -> real node index a-1; refs sorted so that the model's
+    // a < b agrees with the real Ord on ActorId (tie-break of the coordinator order)
+    slot: Vec<usize>,
+    mgrs: Vec<TopologyManager<ActorId>>,
+    assigned: Vec<HashSet<u16>>,
+}
+
+impl Cluster {
+    fn new(np: usize, nb: u16, npart: u16, rf: u8) -> Self {
+        // choose peer ids so that ActorId order == model order
+        let mut cands: Vec<(ActorId, usize)> = (0..np).map(|k| (aref(100 + k), 100 + k)).collect();
+        cands.sort();
+        let slot: Vec<usize> = cands.iter().map(|(_, k)| *k).collect();
+        let mut c = Cluster { np, nb, npart, rf, slot, mgrs: vec![], assigned: vec![] };
+        for a in 1..=np {
+            let m = c.fresh(a, 1);
+            c.assigned.push(m.assigned_partitions.clone());
+            c.mgrs.push(m);
+        }
+        c
+    }
+    fn rf(&self, a: usize) -> ActorId {
+        aref(self.slot[a - 1])
+    }
+    fn pid(&self, a: usize) -> PeerId {
+        peer(self.slot[a - 1])
+    }
+    fn fresh(&self, a: usize, epoch: u64) -> TopologyManager<ActorId> {
+        let mut m = TopologyManager::new(self.rf(a), a - 1, self.np, self.npart, self.nb, self.rf, Duration::from_secs(30));
+        m.alive_since = epoch;
+        let me = self.pid(a);
+        m.active_nodes.insert(me, (epoch, a - 1));
+        m
+    }
+    fn model_peer(&self, p: &PeerId) -> usize {
+        (1..=self.np).find(|&a| &self.pid(a) == p).unwrap_or(0)
+    }
+    fn project(&self, n: usize) -> Value {
+        let m = &self.mgrs[n - 1];
+        let active: Vec<i64> = (1..=self.np)
+            .map(|a| match m.active_nodes.get(&self.pid(a)) {
+                Some((since, idx)) if *idx == a - 1 => *since as i64,
+                Some(_) => -2,
+                None => -1,
+            })
+            .collect();
+        let known = sorted(m.cluster_nodes.keys().map(|p| self.model_peer(p)));
+        let hb = sorted(m.node_heartbeats.keys().map(|p| self.model_peer(p)));
+        let reps: Vec<Vec<usize>> = (0..self.npart)
+            .map(|p| {
+                sorted(
+                    m.partition_replicas
+                        .get(&p)
+                        .map(|r| r.iter().map(|a| self.model_peer(a.peer_id().unwrap())).collect::<Vec<_>>())
+                        .unwrap_or_default(),
+                )
+            })
+            .collect();
+        json!({"active": active, "known": known, "hb": hb, "reps": reps})
+    }
+    fn apply(&mut self, s: &Value) {
+        let n = s["n"].as_u64().unwrap() as usize;
+        let a = s["a"].as_u64().unwrap_or(0) as usize;
+        let e = s["e"].as_u64().unwrap_or(0);
+        match s["op"].as_str().unwrap() {
+            "connect" => {
+                let (r, owned) = (self.rf(a), self.assigned[a - 1].clone());
+                let np = self.np;
+                self.mgrs[n - 1].on_node_connected(r, &owned, e, a - 1, np);
+            }
+            "heartbeat" => {
+                let (r, owned) = (self.rf(a), self.assigned[a - 1].clone());
+                let np = self.np;
+                self.mgrs[n - 1].on_heartbeat(r, &owned, e, a - 1, np);
+                self.mgrs[n - 1].ensure_local_partitions();
+            }
+            "disconnect" => {
+                let p = self.pid(a);
+                self.mgrs[n - 1].on_node_disconnected(&p);
+            }
+            "timeouts" => {
+                let expired: Vec<PeerId> =
+                    s["S"].as_array().unwrap().iter().map(|v| self.pid(v.as_u64().unwrap() as usize)).collect();
+                let m = &mut self.mgrs[n - 1];
+                let now = Instant::now();
+                let old = now.checked_sub(Duration::from_secs(31)).expect("monotonic clock too young");
+                for (p, t) in m.node_heartbeats.iter_mut() {
+                    *t = if expired.contains(p) { old } else { now + Duration::from_secs(5) };
+                }
+                m.check_heartbeat_timeouts();
+            }
+            "response" => {
+                // as Behaviour::handle_partition_message converts the wire format
+                let mut by_ref: HashMap<ActorId, HashSet<u16>> = HashMap::new();
+                for (p, peers) in s["mreps"].as_array().unwrap().iter().enumerate() {
+                    for v in peers.as_array().unwrap() {
+                        by_ref.entry(self.rf(v.as_u64().unwrap() as usize)).or_default().insert(p as u16);
+                    }
+                }
+                let mut pr: HashMap<u16, arrayvec::ArrayVec<ActorId, MAX_REPLICATION_FACTOR>> = HashMap::new();
+                for (r, ps) in by_ref {
+                    for p in ps {
+                        pr.entry(p).or_default().push(r);
+                    }
+                }
+                let mut active = HashMap::new();
+                for (k, v) in s["mactive"].as_array().unwrap().iter().enumerate() {
+                    let since = v.as_i64().unwrap();
+                    if since >= 0 {
+                        active.insert(self.pid(k + 1), (since as u64, k));
+                    }
+                }
+                self.mgrs[n - 1].handle_ownership_response(&pr, active);
+                self.mgrs[n - 1].ensure_local_partitions();
+            }
+            "restart" => {
+                self.mgrs[n - 1] = self.fresh(n, e);
+            }
+            other => panic!("unknown op {other}"),
+        }
+    }
+    /// C14 stated directly on the real managers
+    fn same_view_violation(&self) -> Option<Value> {
+        for x in 1..=self.np {
+            for y in (x + 1)..=self.np {
+                let (mx, my) = (&self.mgrs[x - 1], &self.mgrs[y - 1]);
+                if mx.active_nodes != my.active_nodes {
+                    continue;
+                }
+                for p in 0..self.npart {
+                    let sx: BTreeSet<ActorId> = mx.partition_replicas.get(&p).map(|r| r.iter().copied().collect()).unwrap_or_default();
+                    let sy: BTreeSet<ActorId> = my.partition_replicas.get(&p).map(|r| r.iter().copied().collect()).unwrap_or_default();
+                    let ox: Vec<ActorId> = mx.get_available_replicas(p).iter().map(|(a, _)| *a).collect();
+                    let oy: Vec<ActorId> = my.get_available_replicas(p).iter().map(|(a, _)| *a).collect();
+                    if sx != sy || ox != oy {
+                        return Some(json!({"nodes": [x, y], "partition": p,
+                            "replicas_x": self.project(x)["reps"][p as usize], "replicas_y": self.project(y)["reps"][p as usize]}));
+                    }
+                }
+            }
+        }
+        None
+    }
+}
+
+fn membership(rep: &mut Report, plans: &str, args: &[String]) {
+    let np: usize = args[0].parse().unwrap();
+    let nb: u16 = args[1].parse().unwrap();
+    let npart: u16 = args[2].parse().unwrap();
+    let rf: u8 = args[3].parse().unwrap();
+    let mut steps_total = 0u64;
+    let mut ops: BTreeMap<String, u64> = BTreeMap::new();
+    for (bi, plan) in read_ndjson(plans).iter().enumerate() {
+        let steps = plan.as_array().unwrap();
+        let res = catch(std::panic::AssertUnwindSafe(|| {
+            let mut c = Cluster::new(np, nb, npart, rf);
+            for (k, s) in steps.iter().enumerate() {
+                c.apply(s);
+                let n = s["n"].as_u64().unwrap() as usize;
+                let got = c.project(n);
+                if got != s["post"] {
+                    return Some((format!("c14:membership-conformance:{}", s["op"].as_str().unwrap()),
+                                 json!({"step": k, "op": s, "real": got})));
+                }
+                if let Some(v) = c.same_view_violation() {
+                    return Some(("c14:same-view-different-replicas".to_string(), json!({"step": k, "op": s["op"], "diff": v})));
+                }
+            }
+            None
+        }));
+        steps_total += steps.len() as u64;
+        for s in steps {
+            *ops.entry(s["op"].as_str().unwrap().to_string()).or_default() += 1;
+        }
+        rep.eval(1);
+        match res {
+            Ok(None) => {}
+            Ok(Some((key, detail))) => rep.violation(&key, detail, json!({"behaviour": plan, "np": np, "nb": nb, "npart": npart, "rf": rf})),
+            Err(e) => rep.violation("c14:membership-panic", json!({"panic": e}), json!({"behaviour": plan})),
+        }
+        if bi < 2 {
+            rep.sample(json!(steps.iter().map(|s| format!("{}(n={},a={})", s["op"].as_str().unwrap(), s["n"], s["a"])).collect::<Vec<_>>()));
+        }
+    }
+    rep.set("steps_replayed", json!(steps_total));
+    rep.set("ops", json!(ops));
+    for k in ops.keys() {
+        rep.class(k.clone());
+    }
+}
